@@ -373,6 +373,15 @@ func (r *Run) DoCmd(c Cmd) *Proc {
 			prop := "C12"
 			if c.Op == "compact" {
 				prop = "C05"
+				onlyResults := true
+				for _, d := range ds {
+					if !strings.Contains(d, "result") {
+						onlyResults = false
+					}
+				}
+				if onlyResults {
+					prop = "C20" // results dropped, duplicated, reordered or altered by compaction
+				}
 			} else if c.Op == "init" {
 				prop = "C18"
 			}
